@@ -67,22 +67,27 @@ def r13_1(ctx, R):
                                         if (c == ("multi", l)):
                                             exceed = not exceed if lab[1][1] in ("Gt", "Ge", "Lt", "Le") else exceed
                                         if exceed and tgt not in body and d.dominates(sb, inside[0]) and d.dominates(inc, sb):
-                                            exit_tgt = (sb, tgt, c[2] if c[0] == "const" else a[2])
+                                            exit_tgt = (sb, tgt, c[2] if c[0] == "const" else a[2], lab[1][1])
                     if dom_ok and exit_tgt:
                         found = (l, inc, inits[0], exit_tgt)
             ok = found is not None
             det = "no budget counter found"
             if found:
-                l, inc, init, (sb, tgt, bound) = found
+                l, inc, init, (sb, tgt, bound, cmp_op) = found
                 wakes = [bb for bb, t, fn in R.task_wake_sites(d)]
                 pend = pending_assign_blocks(d)
                 # on the exit: wake then Pending return, nothing else
                 wake_ok = any(d.dominates(tgt, w) for w in wakes) and \
                     all(d.must_pass(tgt, d.returns(), [w for w in wakes if d.dominates(tgt, w)]) for _ in [0])
                 pend_ok = any(d.dominates(tgt, p) for p in pend)
-                ok = wake_ok and pend_ok
-                det = "counter _%d init %s at %s, +const at %s, bound %s, exit edge bb%d->bb%d, self-wake on exit: %s, returns Pending: %s" % (
-                    l, init[1], d.loc(init[0]), d.loc(inc), bound, sb, tgt, wake_ok, pend_ok)
+                # the budget admits at least one child poll per call (otherwise nothing is ever polled)
+                try:
+                    room = int(bound) - int(init[1]) - (1 if cmp_op in ("Gt", "Lt") else 2)
+                except ValueError:
+                    room = -1
+                ok = wake_ok and pend_ok and room >= 0
+                det = "counter _%d init %s at %s, +const at %s, exits when count %s %s, exit edge bb%d->bb%d, self-wake on exit: %s, returns Pending: %s, admits >=1 child poll: %s" % (
+                    l, init[1], d.loc(init[0]), d.loc(inc), cmp_op, bound, sb, tgt, wake_ok, pend_ok, room >= 0)
             ctx.ob("R13.1", d, "child-poll-loop-is-budgeted@head-ord%d" % sorted(loops).index(head), ok, d.loc(head), det)
     ctx.floor("R13.1", "loops-with-child-poll", n, 1)
     # merge outer loop: back edges only behind a removal
